@@ -749,6 +749,27 @@ func readGsub8_1(p *parser.Parser, subtablePos int64) (Subtable, error) {
 		substituteGlyphIDs = substituteGlyphIDs[:len(input)]
 	}
 
+	// Make sure the subtable can be encoded again: the offsets of the
+	// backtrack and lookahead coverage tables must fit into 16 bits.
+	errTooLarge := &parser.InvalidFontError{
+		SubSystem: "sfnt/opentype/gtab",
+		Reason:    "Gsub8_1 too large",
+	}
+	total := 10 + 2*len(backtrack) + 2*len(lookahead) + 2*len(substituteGlyphIDs)
+	total += input.EncodeLen()
+	for _, cov := range backtrack {
+		if total > 0xFFFF {
+			return nil, errTooLarge
+		}
+		total += cov.EncodeLen()
+	}
+	for _, cov := range lookahead {
+		if total > 0xFFFF {
+			return nil, errTooLarge
+		}
+		total += cov.EncodeLen()
+	}
+
 	res := &Gsub8_1{
 		Input:              input,
 		Backtrack:          backtrack,
